@@ -1522,6 +1522,14 @@ fn lax_sliced_to_headers(base: &[u8], p: &LaxSlicedPacket) -> String {
 // ---------------------------------------------------------------------------------------------
 // IP boundary implementations
 
+/// every accessor of an `IpHeadersSlice` that may describe an incomplete chain: each returns (C02)
+fn ip_headers_slice_touch(h: &IpHeadersSlice) {
+    let _ = (h.payload_ip_number(), h.next_header(), h.version(), h.header_len(), h.is_ipv4(), h.is_ipv6());
+    let _ = (h.source_addr(), h.destination_addr(), h.slice().len());
+    let _ = h.try_to_header().map(|x| x.header_len());
+    let _ = format!("{:?}", h);
+}
+
 fn ip_slice_str(base: &[u8], s: &IpSlice) -> String {
     // `IpSlice::header()` (IpHeadersSlice) summarises the same layer: its conversions and numbers have to
     // be the ones of the slice it came from
@@ -1539,8 +1547,16 @@ fn ip_slice_str(base: &[u8], s: &IpSlice) -> String {
             .map(|(e, _, rest)| rest.is_empty() && e.header_len() == v.extensions().slice().len())
             .unwrap_or(false),
     };
-    if fits && hs.payload_ip_number() != s.payload_ip_number() {
+    // (asked in every case: it has to return for every chain; compared only where the chain fits)
+    let hs_num = hs.payload_ip_number();
+    if fits && hs_num != s.payload_ip_number() {
         which.push("payload_ip_number");
+    }
+    // the summary type built from parts (public `From` conversions): header alone - the chain is then missing
+    // altogether - every accessor still has to answer
+    match s {
+        IpSlice::Ipv4(x) => ip_headers_slice_touch(&IpHeadersSlice::from(x.header())),
+        IpSlice::Ipv6(x) => ip_headers_slice_touch(&IpHeadersSlice::from(x.header())),
     }
     if hs.is_ipv4() != matches!(s, IpSlice::Ipv4(_)) || hs.is_ipv6() != matches!(s, IpSlice::Ipv6(_)) {
         which.push("is_ipvx");
@@ -1811,6 +1827,10 @@ fn run_on(op: &str, et: Option<u16>, b: &[u8]) -> Option<String> {
         ("dec.lax_ip_slice", None) => match LaxIpSlice::from_slice(b) {
             Ok((s, st)) => {
                 let _ = format!("{:?}", s);
+                match &s {
+                    LaxIpSlice::Ipv4(x) => ip_headers_slice_touch(&IpHeadersSlice::from((x.header(), x.extensions()))),
+                    LaxIpSlice::Ipv6(x) => ip_headers_slice_touch(&IpHeadersSlice::from((x.header(), x.extensions().clone()))),
+                }
                 let bad = lax_ip_slice_helpers_bad(&s);
                 let (n, v4) = match s {
                     LaxIpSlice::Ipv4(s) => (LaxNetSlice::Ipv4(s), true),
